@@ -33,7 +33,7 @@ def leaves(full=True):
     out.append(('CMP', PA, 'IN', False, ('set', (('num', 0.1234567), ('num', -1)))))
     # index steps: negative, non-zero, wildcard, in the middle and at the end of a path, next to quoted names
     for steps in ((('key', 'b'), ('idx', '-1')), (('key', 'b'), ('idx', '1')), (('key', 'b'), ('idx', '*')), (('key', 'b'), ('idx', '0')), (('key', 'b'), ('idx', '-1'), ('key', 'c')),
-                  (('key', 'b'), ('idx', '*'), ('key', 'c-d')), (('key', 'x-y'), ('idx', '2')), (('key', 'b'), ('key', 'c'), ('idx', '10'), ('key', 'd')), (('key', 'b_ref'), ('key', 'c'), ('idx', '-2'))):
+                  (('key', 'b'), ('idx', '*'), ('key', 'c-d')), (('key', 'x-y'), ('idx', '2')), (('key', 'x-y'), ('idx', '*')), (('key', 'b'), ('key', 'x-y'), ('idx', '*'), ('key', 'c')), (('key', 'b'), ('key', 'x-y'), ('idx', '-1')), (('key', 'b'), ('key', 'c'), ('idx', '10'), ('key', 'd')), (('key', 'b_ref'), ('key', 'c'), ('idx', '-2'))):
         out.append(('CMP', ('a', steps), '=', False, ('num', 1)))
     return out
 
